@@ -398,6 +398,24 @@ def chain_mpo_dense(bl, ops, algo="qr"):
     return np.asarray(Mpo(Model(list(bl), []), ops, algo=algo).todense())
 
 
+def ambiguous_join(ctx, terms):
+    """F41 region: TTNO multiplies the per-basis-set operators of a multi-basis node into ONE Op whose symbol is the blank-joined
+    string; '<...b^\\dagger> <+...> <b...>' coming from three different basis sets (boson, spin, boson - in the node's order) is
+    then parsed as the single symbol 'b^\\dagger + b' and Op.__init__ raises.  True when some term and some node produce it."""
+    if ctx.space != "P":
+        return False
+    for t in terms:
+        g = gen.regroup(t)
+        for ni in ctx.nodes:
+            # a site of the node that the term does not touch contributes its identity 'I' to the joined symbol
+            seq = [g[s][0] if s in g else ["I"] for s in ni.sets if s is not None]
+            for a in range(len(seq) - 2):
+                w1, w2, w3 = seq[a], seq[a + 1], seq[a + 2]
+                if w1[-1] == r"b^\dagger" and w2 == ["+"] and w3[0].startswith("b"):
+                    return True
+    return False
+
+
 def make_ttno(ctx, terms, algo=None):
     """TTNO of a term list (plain-data terms of vf.gen) on the tree of ctx; for an auxiliary-space context the terms act on
     the physical half"""
@@ -876,6 +894,16 @@ class TInterp:
         if np.linalg.norm(ref) <= 1e-12 * scale:
             return
         algo = ins.get("algo", "Hopcroft-Karp")
+        if not self.aux and ambiguous_join(self.ctx, terms):
+            # F41 region (classified, not skipped): the failure gets its own signature and nothing else is derived from it
+            try:
+                TTNO(octx.tree, ops)
+            except (AssertionError, ValueError) as e:
+                s, in_lib = lib_exception_sig(e)
+                if not in_lib:
+                    raise
+                self.r.fail("ttno.ambiguous_symbol_join", f"{e!r}: symbols of different basis sets of one node joined to 'b^\\dagger + b'")
+                return
         ok, o = self.guard("create.ttno", lambda: TTNO(octx.tree, ops, algo=algo) if algo != "default" else TTNO(octx.tree, ops))
         if not ok:
             return
